@@ -6,18 +6,60 @@ import c05
 
 def run(ck):
     quick = ck.tier == 'quick'
-    ck.bounds += ['zones: <= 1 transition, no rule (quick) / <= 2 transitions + Fixed rule (thorough); buffer length symbolic in 0..=6, pre-filled with a stale sentinel entry; reference = the same search into a buffer larger than any result list (asserted exhaustive)',
+    ck.bounds += ['compositional: every push sequence of <= 4 entries x every buffer length 0..6 (covers every zone whose result list has <= 4 entries, incl. DST-rule zones); direct harnesses: zones: <= 1 transition, no rule (quick) / <= 2 transitions + Fixed rule (thorough); buffer length symbolic in 0..=6, pre-filled with a stale sentinel entry; reference = the same search into a buffer larger than any result list (asserted exhaustive)',
                   'Vec instantiation (DateTime::find) vs buffer instantiation: <= 1 transition, rule none or Fixed']
     ck.stubs += c05.STUBS
     ck.trusted += ['Kani 0.68 / CBMC 6.11 (dev profile)']
-    hs = [H('c17_buffer_n1', cap=1800, meaning='count equal, data = first min(len,k) entries in order (field-wise), exhaustive <=> len>=k, slots beyond untouched (sentinel), same error kind, unique/earliest/latest equal when exhaustive'),
-          H('c17_vec_equals_buffer_n1', cap=1800, meaning='DateTime::find (Vec) returns entry-wise the same list, unique/earliest/latest equal')]
+    # structural premise of the compositional argument: the generic search sees its list only through `push`
+    import re, os
+    src = open(os.path.join(common.REPO, 'src/datetime/find.rs')).read()
+    m = re.search(r'trait DateTimeList\s*\{(.*?)\n\}', src, re.S)
+    methods = re.findall(r'\bfn\s+(\w+)', m.group(1)) if m else None
+    generic_ok = bool(re.search(r'fn find_date_time\(\s*found_date_time_list: &mut impl DateTimeList', src))
+    q = common.Query('structure:generic_search_sees_its_list_only_through_push', '', 'unsat', 'claim', True, None, 1, 'trait DateTimeList declares exactly one method `push(&mut self, FoundDateTimeKind)` and find_date_time takes `&mut impl DateTimeList`: both instantiations issue the same push sequence')
+    q.verdict = 'unsat' if (methods == ['push'] and generic_ok) else 'sat'
+    ck.queries.append(q)
+    if q.verdict != 'unsat':
+        ck.inconclusive.append(f'compositional premise of C17 no longer holds (trait methods: {methods}, generic signature found: {generic_ok}); only the direct harnesses apply')
+    hs = [H('c17_push_sequences', cap=1800, playback=True, meaning='for every sequence of <= 4 arbitrary pushes and every buffer length 0..6 (stale sentinel): count = k, data = first min(n,k) entries in order, exhaustive <=> n >= k, slots beyond untouched, unique/earliest/latest equal those of the allocating list when exhaustive'),
+          H('c17_vec_equals_buffer_n1', cap=2400, required=not quick, meaning='direct: DateTime::find (Vec) vs DateTime::find_n on the same symbolic zone (<=1 transition, rule none/Fixed): entry-wise equal, unique/earliest/latest equal')]
     if not quick:
-        hs.append(H('c17_buffer_n2_rule', cap=7200, meaning='<= 2 transitions + Fixed rule'))
-    kprop.run_harnesses(ck, hs)
+        hs.append(H('c17_buffer_n1', cap=7200, meaning='direct: find_n into a buffer of symbolic length vs an exhaustive buffer, <= 1 transition'))
+        hs.append(H('c17_buffer_n2_rule', cap=7200, required=False, meaning='<= 2 transitions + Fixed rule'))
+    kprop.run_harnesses(ck, hs, on_fail=lambda B, h: on_fail(ck, B, h))
     ck.functions += ['DateTime::find_n', 'DateTime::find', 'FoundDateTimeListRefMut::*', 'FoundDateTimeList::*', 'datetime::find::find_date_time', 'DateTimeList::push (both impls)']
     ck.explanation = 'Both instantiations of the generic search run on the same symbolic zone and civil time; CBMC compares the results for every buffer length.'
 
 
+def on_fail(ck, B, h):
+    """decode the zone and civil count of the counterexample, then ask the native oracle (both real instantiations, stale sentinel buffer) for every buffer length"""
+    import re, zoneref, calref
+    vecs = B.playback(h)
+    if not vecs:
+        ck.inconclusive.append(f'{h.name} FAILED ({h.failed_checks[:3]}); concrete playback produced no values')
+        return
+    N = int(re.search(r'_n(\d)', h.name).group(1))
+    z, m = kprop.decode_zone(vecs, N)
+    z.leaps = []
+    if 'rule' not in h.name and 'vec' not in h.name:
+        z.rule = None
+    c = m.get('c', 0)
+    nat = common.Native()
+    if not (calref.MIN_T <= c <= calref.MAX_T):
+        ck.inconclusive.append(f'{h.name} FAILED; counterexample outside the replayable range')
+        return
+    y, mo, d, hh, mi, s = calref.gmtime(c)[:6]
+    for blen in range(0, N + 4):
+        cmd = f'c17 {z.cmd()} {y} {mo} {d} {hh} {mi} {s} 5 {blen}'
+        for o in nat.both([cmd])[0]:
+            if o.startswith('DIFF') or o.startswith('panic'):
+                ck.violation(f'{h.name}: zone [{z.cmd()}], local time {y}-{mo}-{d} {hh}:{mi}:{s}, buffer length {blen} (pre-filled with stale entries): {o}', {'cmd': cmd})
+                return
+    ck.inconclusive.append(f'{h.name} FAILED ({h.failed_checks[:3]}) but buffer and allocating search agree natively on the decoded case')
+
+
 def replay(ck, case):
-    return 1
+    nat = common.Native()
+    o = nat.both([case['case']['cmd']])[0]
+    print(o)
+    return 1 if any(x.startswith(('DIFF', 'panic')) for x in o) else 0
